@@ -8,6 +8,15 @@ CHECKS = {
    note='Scheduling points only at synchronisation operations (plain racy accesses are C13); two producers, scripts of <= 3 notifications, deviation bound 2 (bare) / 1 (chains) quick, 3 / 2 thorough; virtual time.',
    technique='stateless model checking of the implementation (controlled scheduler, deviation-bounded DFS over schedules)', ref='§5 C02'),
 }
+COMMON_NOTE='Bounded: values over a 2-letter alphabet, scripts up to the stated length, pairs of operators (no longer chains); sequential cases run one execution each on the instrumented build (non-termination = step horizon). Reference models are executable Go definitions written from the doc comments / docs/data, validated against the unchanged tree.'
+CHECKS.update({
+ 'C01': dict(level='model_checking', text='Exhaustive enumeration of all producer scripts (legal and illegal) up to a bounded length over every catalogue operator, every ordered pair of chainable operators and every constructor mode, run on the real code; grammar monitor on the final observer plus a differential clause (script vs its legal prefix) and the dropped-notification hook count.', note=COMMON_NOTE, technique='exhaustive bounded enumeration of input scripts on the implementation (explicit-state, sequential) + schedule exploration for concurrent emitters', ref='§5 C01'),
+ 'C03': dict(level='model_checking', text='Every operator/pair x every legal script x every cut position (outside and inside a callback), exhaustively, with per-source teardown counters, a blocked-thread census from the controlled scheduler and a virtual-timer census as oracle.', note=COMMON_NOTE, technique='exhaustive bounded enumeration of scripts and cut points on the implementation under the controlled scheduler', ref='§5 C03'),
+ 'C04': dict(level='model_checking', text='Every operator configuration and every ordered pair x every legal script up to the bound, exhaustively, compared notification by notification with an executable reference model (on a cold source and after every push on a pushed source).', note=COMMON_NOTE, technique='exhaustive bounded input enumeration against an executable reference model', ref='§5 C04'),
+ 'C08': dict(level='model_checking', text='Every synchronous operator/pair x every legal script pushed step by step: output due (per reference model) must be present when each Next returns, on the caller thread, with no goroutine spawned (the scheduler counts spawns).', note=COMMON_NOTE, technique='exhaustive bounded input enumeration with per-step oracle; schedule exploration for hand-off operators', ref='§5 C08'),
+ 'C09': dict(level='model_checking', text='Every operator, operator behind ContextWithValue, and ordered pair x every legal script with context markers at three levels; every callback context inspected.', note=COMMON_NOTE, technique='exhaustive bounded input enumeration with context-marker oracle', ref='§5 C09'),
+ 'C12': dict(level='model_checking', text='Every operator/pair x every legal script: re-subscription x3 vs fresh pipeline, subscription counters, and one operator value applied to three sources in all six orders vs fresh twins.', note=COMMON_NOTE, technique='exhaustive bounded enumeration of scripts, re-subscription histories and application orders (differential against a fresh instance)', ref='§5 C12'),
+})
 NA = {}
 ALL = ['C%02d' % i for i in range(1, 21)]
 m = {
